@@ -153,7 +153,7 @@ func (prop) Decode(raw []byte) (any, error) {
 		if l.K != "extend-returned" && l.K != "push" && l.K != "write" && l.K != "setlayout" && l.K != "badsetcoords" {
 			return nil, fmt.Errorf("bad later step %q", l.K)
 		}
-		if l.Msg < 0 || l.Msg >= len(s.Msgs) || l.Add < 0 || l.Add >= len(s.Msgs) || l.Ord < 0 || len(l.Path) > 6 || math.IsNaN(float64(l.V)) || math.IsInf(float64(l.V), 0) {
+		if l.Msg < 0 || l.Msg >= len(s.Msgs) || l.Add < 0 || l.Add >= len(s.Msgs) || l.Ord < 0 || len(l.Path) > 1024 || math.IsNaN(float64(l.V)) || math.IsInf(float64(l.V), 0) {
 			return nil, fmt.Errorf("bad later step")
 		}
 		for _, i := range l.Path {
